@@ -8,7 +8,7 @@ CFT = P + "cache_file_from_transport"
 
 
 def run(chk, prog):
-    chk.rules_live = ["R1", "R3", "R4", "R5", "R6"]
+    chk.rules_live = ["R1", "R3", "R4", "R5", "R6", "R7"]
     chk.explanation = (
         "Who-may-write + template rules over cache.rs: target files are written only through "
         "save_target (so the verified, atomic path of C06/C08 applies) with the digest prefix exactly "
@@ -127,6 +127,39 @@ def run(chk, prog):
     # in full: the bound applied to each copy is that role's own limit (C09's cache provenance rule)
     from . import c09
     c09.r2_cache_provenance(SubCheck(chk, "R6"), prog)
+    # R7: metadata copies are written through tokio::fs::File (the write completes on a background thread):
+    # Ok is reported only after a successful flush (defect D17, repaired)
+    cf = async_body(prog, P + "cache_file_from_transport")
+    if cf is None:
+        chk.anchor_missing("R7", P + "cache_file_from_transport")
+    else:
+        chk.analysed_body(cf.body)
+        sinks = cf.ok_return_blocks()
+        tails = cf.tail_result_calls()
+        if tails and not sinks:
+            # `..; file.flush().await.context(..)` as tail expression: the function's result IS the flush's
+            work = list(cf.origins.of_local(0))
+            seen_ = set()
+            is_flush = False
+            while work and len(seen_) < 40:
+                o = work.pop()
+                if o.ident() in seen_:
+                    continue
+                seen_.add(o.ident())
+                if o.kind == "call" and o.extra is not None:
+                    if o.extra.is_call_to(*ASYNC_FLUSH):
+                        is_flush = True
+                    else:
+                        for a in o.extra.args[:1]:
+                            work.extend(cf.origins.of_operand(a))
+            writes = cf.calls(*ASYNC_WRITE)
+            chk.require(is_flush and bool(writes), "R7", cf.fn, "buffered-write-flushed-before-Ok",
+                        "the result of cache_file_from_transport is not that of flushing the file it wrote: a failing "
+                        "deferred write would be reported as success", cf.site(writes[0][0]) if writes else None)
+            nw = len(writes)
+        else:
+            nw = async_write_flush_rule(chk, cf, "R7", sinks + tails, "Ok")
+        chk.floor("R7", nw, 1, "buffered async writes in cache_file_from_transport")
 
 
 def r3_chain(chk, prog):
